@@ -16,7 +16,7 @@ ASSUMPTIONS = [
     "harness records the options PERSISTED in the deliver state's governance store before every transaction; generated and "
     "directed histories change them through real config-update proposals (create, fund, vote, internal finalisation) and send "
     "PROPOSAL_FINALIZE / PROPOSAL_CREATE to the mempool only (CheckTx) at call boundaries in between",
-    "names are modelled as label lists; splitting at '.' is a bijection, labels contain no dot; URI scheme validity (net/url) is an input flag",
+    "names are modelled as label lists of the EXACT byte strings of the transaction (case-sensitive, as the code keys them); splitting at '.' is a bijection, labels contain no dot; URI scheme validity (net/url) is an input flag",
     "genesis-loaded domains are outside the generated histories (registries start empty)",
 ]
 
@@ -121,10 +121,10 @@ def run(ctx):
     cov = ctx.coverage
     cov.update({
         "evaluations": rep["txs"], "distinct_nontrivial": rep["distinct"],
-        "rule": "corpus/C20.json (replay of the fixed finding C20.expiry_blocks_ge_2p63 with expected refusals) + 11 directed histories (uncommitted sub-name vs purchase; look-alike names n/xn/nx/nn/an with sub-names; block count "
+        "rule": "corpus/C20.json (replay of the fixed finding C20.expiry_blocks_ge_2p63 with expected refusals) + 12 directed histories (uncommitted sub-name vs purchase; look-alike names n/xn/nx/nn/an with sub-names; block count "
                 ">= 2^63 refused; expiry and re-purchase; listing -> expiry -> expired-name purchase -> stranger offers the old price, with "
                 "its neighbours: listing cancelled before expiry, renewed and bought live once; inputs only Validate rejects; two parents with 3+1 and 2 committed sub-names renewed, then sends to every sub-name past the old expiry height) + seeded random histories over 6 accounts (5 funded, 1 poor), 12 names that are "
-                "prefixes/suffixes of each other and sub-/sub-sub-names, 5 invalid names, 5 option sets, in ~40% of the histories a governance thread changing perBlockFees / baseDomainPrice (mempool-only finalize, ONS transactions before / in the same block as / after the real finalisation); the generator looks at the "
+                "prefixes/suffixes of each other and sub-/sub-sub-names, 5 invalid names, ~12% of the transactions addressed by a letter-case variant or near-miss spelling of a registered name (trailing / doubled dot, leading / trailing space, cyrillic look-alike, upper-case TLD), 5 option sets, in ~40% of the histories a governance thread changing perBlockFees / baseDomainPrice (mempool-only finalize, ONS transactions before / in the same block as / after the real finalisation); the generator looks at the "
                 "observed registry so that ~70% of signers are the current owner and offers straddle the asking/base price; "
                 "distinct = distinct (operation, outcome, registry size)",
         "traces_validated_against_impl": rep["cases"], "histories": rep["cases"], "blocks": rep["blocks"],
